@@ -202,3 +202,114 @@ def extract(read):  # noqa: F811  (wraps the extractors above)
              "    wrapping assignment (every link is counted), 0 = not. -/\n"
              "def parserTreeLoops : List (String × Nat) := [%s]\n" % ", ".join('("%s", %d)' % r for r in rows))
     return text
+
+
+# ---- token-consuming loops must end at Eof; data-type arms -------------------------------------------
+_POS = (r"(?:matches!\(\s*(?:self|parser)\.peek\(\)\s*,\s*(?!Token::Eof)[^)]*\)"
+        r"|(?:self|parser)\.peek\(\)\s*==\s*&?Token::(?!Eof)\w+"
+        r"|(?:self|parser)\.(?:peek_keyword|peek_next_keyword|try_consume_keyword|try_consume|is_join_keyword)\s*\([^)]*\))")
+_NOTEOF = (r"(?:!\s*matches!\(\s*(?:self|parser)\.peek\(\)\s*,[^)]*Token::Eof[^)]*\)"
+           r"|(?:self|parser)\.peek\(\)\s*!=\s*&?Token::Eof)")
+
+
+def _split_top(s, op):
+    parts, d, cur, i = [], 0, "", 0
+    while i < len(s):
+        c = s[i]
+        if c in "([{":
+            d += 1
+        elif c in ")]}":
+            d -= 1
+        if d == 0 and s.startswith(op, i):
+            parts.append(cur)
+            cur = ""
+            i += len(op)
+            continue
+        cur += c
+        i += 1
+    parts.append(cur)
+    return [p.strip() for p in parts]
+
+
+def _eof_class(kind, cond, body):
+    """1 = the loop is left when the current token is Eof, 0 = it is not, 2 = the shapes below do not apply.
+    while: every `||` alternative of the condition has an `&&` conjunct that is false at Eof (a test for a
+    specific other token / keyword, or an explicit not-Eof test).  loop: the body has a default exit
+    (`_ => break|return`, `else { break|return`, `if !<token test> { break|return`) or an explicit
+    `Token::Eof => return|break` arm."""
+    if kind == "while":
+        for dis in _split_top(cond, "||"):
+            if not any(re.fullmatch(_POS, con) or re.fullmatch(_NOTEOF, con) for con in _split_top(dis, "&&")):
+                return 0
+        return 1
+    if kind == "whilelet":
+        return 2
+    if (re.search(r"_\s*=>\s*(?:\{\s*)?(?:break|return)\b", body) or re.search(r"else\s*\{\s*(?:break|return)\b", body)
+            or re.search(r"if\s+!\s*(?:" + _POS + r")\s*\{\s*(?:break|return)\b", body)
+            or re.search(r"Token::Eof\s*=>\s*(?:\{\s*)?(?:break|return)\b", body)):
+        return 1
+    return 2
+
+
+def _token_loops(read):
+    base = "crates/vibesql-parser/src/parser"
+    repo = _os.environ.get("VERIF_REPO", "/repo")
+    rows = []
+    for dp, _dn, fns in sorted(_os.walk(_os.path.join(repo, base))):
+        for f in sorted(fns):
+            if not f.endswith(".rs"):
+                continue
+            rel = _os.path.relpath(_os.path.join(dp, f), repo)
+            src = _strip(read(rel))
+            for m in re.finditer(r"\b(while|loop)\b", src):
+                k, d = m.end(), 0
+                while k < len(src):
+                    c = src[k]
+                    if c in "([":
+                        d += 1
+                    elif c in ")]":
+                        d -= 1
+                    elif c == "{" and d == 0:
+                        break
+                    k += 1
+                cond = " ".join(src[m.end():k].split())
+                kind = "whilelet" if (m.group(1) == "while" and cond.startswith("let")) else m.group(1)
+                body = src[k + 1:_block_end(src, k)]
+                consumes = bool(re.search(r"advance\(\)|consume|expect_|parse_\w+\(", body)) or "Eof" in cond
+                if not consumes:
+                    continue
+                fn = re.findall(r"fn\s+(\w+)", src[:m.start()])
+                rows.append((fn[-1] if fn else "?", kind, _eof_class(kind, cond, body)))
+    return rows
+
+
+_extract_loops0 = extract
+
+
+def extract(read):  # noqa: F811  (wraps the extractors above)
+    text = _extract_loops0(read)
+    rows = _token_loops(read)
+    if not rows:
+        return text + "\n-- parserTokenLoops: NOT FOUND in source (dependent theorems will not build)\n"
+    text += ("\n/-- parser/**/*.rs: every `while` / `loop` that consumes tokens (or tests for Eof), by enclosing function and kind;\n"
+             "    1 = left when the current token is Eof (condition / default exit, see tools/consts.d/c23.py), 0 = not,\n"
+             "    2 = shape not recognised. -/\n"
+             "def parserTokenLoops : List (String × String × Nat) := [%s]\n" % ", ".join('("%s", "%s", %d)' % r for r in rows))
+    tsrc = _strip(read("crates/vibesql-parser/src/parser/create/types.rs"))
+    i = tsrc.find("fn parse_data_type")
+    j = tsrc.find("fn ", i + 10) if i >= 0 else -1
+    arms = []
+    if i >= 0:
+        body = read("crates/vibesql-parser/src/parser/create/types.rs")
+        bi = body.find("fn parse_data_type")
+        bj = body.find("\n    fn ", bi + 10)
+        bj2 = body.find("\n    pub(crate) fn ", bi + 10)
+        ends = [x for x in (bj, bj2) if x > 0]
+        seg = body[bi:min(ends)] if ends else body[bi:]
+        for m in re.finditer(r'^\s{12}((?:"[A-Z_]+"\s*\|\s*)*"[A-Z_]+")\s*=>', seg, re.M):
+            arms += re.findall(r'"([A-Z_]+)"', m.group(1))
+    if not arms:
+        return text + "\n-- parserDataTypeArms: NOT FOUND in source (dependent theorems will not build)\n"
+    text += ("\n/-- parser/create/types.rs `parse_data_type`: the type keywords of the top-level match arms -/\n"
+             "def parserDataTypeArms : List String := [%s]\n" % ", ".join('"%s"' % a for a in dict.fromkeys(arms)))
+    return text
